@@ -109,7 +109,7 @@ def gen_g0(r, name):
     t = wchoice(r, [("mix", 5), ("loop_sum", 1), ("bool_list", 1.2), ("lookup", 1), ("tuple", 1), ("const_index", 0.5), ("range", 0.4), ("with_def", 1.5), ("ifstmt", 1), ("list_tuples", 0.5),
                     ("builtins", 1.5), ("two_lists", 0.8), ("inner_def", 1.2), ("minmax", 0.6),
                     ("unpack", 0.8), ("enum_loop", 0.8), ("forward", 0.8), ("double_index", 0.6), ("augassign", 0.6), ("multi_assign", 1.0),
-                    ("reassign", 0.8), ("iterate_twice", 0.8), ("branch_const", 0.8), ("prefix_names", 0.6), ("sum_builtin", 1.2), ("param_mutated", 1.4), ("other_types", 2.0), ("tuple_return", 1.0)])
+                    ("reassign", 0.8), ("iterate_twice", 0.8), ("branch_const", 0.8), ("prefix_names", 0.6), ("sum_builtin", 1.2), ("param_mutated", 1.4), ("other_types", 2.0), ("tuple_return", 1.0), ("arith2", 1.6)])
     defs = []
     if t == "mix":
         # 1-4 parameters interleaved anywhere in the signature with 1-3 real arguments
@@ -343,6 +343,37 @@ def gen_g0(r, name):
         params, args, ret = [("p", "Qint[2]")], [("x", "Qint[2]"), ("a", "bool")], "Qint[2]"
         op_ = r.choice(["^=", "&=", "|="])
         src = f"def {name}(x: Qint[2], p: Parameter[Qint[2]], a: bool) -> Qint[2]:\n    s = x\n    if a:\n        s {op_} p\n    return s\n"
+    elif t == "arith2":
+        # operators the other templates do not reach -- multiplication, wrapping subtraction, scalar min / max, tuple
+        # equality, masks written in hex -- each checked by hand, parameters kept as typed arguments, against plain Python
+        # on its whole domain before it was admitted (DESIGN 10.22); no comparison after a subtraction (negative in Python)
+        f_ = r.randrange(8)
+        if f_ == 0:
+            params, args, ret = [("p", "Qint[2]")], [("x", "Qint[2]")], "Qint[4]"
+            src = f"def {name}(x: Qint[2], p: Parameter[Qint[2]]) -> Qint[4]:\n    return {r.choice(['x * p', 'p * x'])}\n"
+        elif f_ == 1:
+            params, args, ret = [("p", "Qint[2]"), ("q", "Qint[2]")], [("x", "Qint[2]")], "Qint[4]"
+            src = f"def {name}(p: Parameter[Qint[2]], x: Qint[2], q: Parameter[Qint[2]]) -> Qint[4]:\n    return {r.choice(['(x * p) + q', '(p * q) + x', 'p * q'])}\n"
+        elif f_ == 2:
+            w = r.choice([2, 3])
+            params, args, ret = [("p", f"Qint[{w}]")], [("x", f"Qint[{w}]")], f"Qint[{w}]"
+            src = f"def {name}(x: Qint[{w}], p: Parameter[Qint[{w}]]) -> Qint[{w}]:\n    return {r.choice(['x - p', 'p - x', '(x - p) ^ p'])}\n"
+        elif f_ == 3:
+            w = r.choice([2, 3])
+            params, args, ret = [("p", f"Qint[{w}]")], [("x", f"Qint[{w}]")], f"Qint[{w}]"
+            src = f"def {name}(p: Parameter[Qint[{w}]], x: Qint[{w}]) -> Qint[{w}]:\n    return {r.choice(['max(x, p)', 'min(x, p)', 'max(p, x)', 'max(x, p) - min(x, p)'])}\n"
+        elif f_ == 4:
+            params, args, ret = [("p", "Qint[2]"), ("q", "Qint[2]")], [("x", "Qint[2]")], "Qint[2]"
+            src = f"def {name}(x: Qint[2], p: Parameter[Qint[2]], q: Parameter[Qint[2]]) -> Qint[2]:\n    return {r.choice(['min(x, p, q)', 'max(x, p, q)', 'max(min(x, p), q)', 'min(p, q) ^ x'])}\n"
+        elif f_ == 5:
+            params, args, ret = [("p", "Qint[4]")], [("x", "Qint[4]")], "Qint[4]"
+            src = f"def {name}(x: Qint[4], p: Parameter[Qint[4]]) -> Qint[4]:\n    return {r.choice(['(x & 0xA) | (p & 0x5)', '(x | 0x3) & p', '(p ^ 0xF) & x'])}\n"
+        elif f_ == 6:
+            params, args, ret = [("p", "Tuple[bool, bool]")], [("a", "bool"), ("b", "bool")], "bool"
+            src = f"def {name}(a: bool, p: Parameter[Tuple[bool, bool]], b: bool) -> bool:\n    return {r.choice(['(a, b) == p', 'not ((a, b) == p)', 'p == (a, b)', '(a, not b) == p'])}\n"
+        else:
+            params, args, ret = [("p", "Qint[2]"), ("q", "bool")], [("x", "Qint[2]"), ("a", "bool")], "bool"
+            src = f"def {name}(x: Qint[2], q: Parameter[bool], a: bool, p: Parameter[Qint[2]]) -> bool:\n    return {r.choice(['((x * p) > 3) ^ q', '(max(x, p) == x) and (a or q)', '(min(x, p) == p) ^ (a and q)'])}\n"
     elif t == "lookup":
         n = r.choice([4, 4, 3, 5, 2])
         params, args, ret = [("p", f"Qlist[Qint[2], {n}]")], [("x", "Qint[2]")], "Qint[2]"
